@@ -89,6 +89,7 @@ def make_case(seed, index, tier):
         consumers[0].update(mode='iter', count=10 ** 9, work=rng.choice([0.5, 1, 2]))
     return {'seed': seed, 'index': index, 'tier': tier, 'burst': burst,
             'twins': rng.random() < 0.4, 'reused': rng.random() < 0.4,
+            'nones': rng.random() < 0.25,
             'scenario': {'producers': producers, 'consumers': consumers}}
 
 
@@ -98,6 +99,7 @@ class ChannelChecker:
         self.sess = arena.sess
         self.channel = channel
         self.puts = []              # accepted messages in put order
+        self.none_idents = set()    # messages whose payload is None
         self.closed_at = None       # len(puts) when close() was called
         self.subs = {}              # subscription id -> dict
         self.counter = 0
@@ -152,6 +154,8 @@ class ChannelChecker:
         self.stats['messages_received'] += 1
         position = sub['from'] + sub['got']
         expected = self.puts[position] if position < len(self.puts) else None
+        if message is None and expected in self.none_idents:
+            message = expected      # a None payload carries no id: matched by position
         if message != expected:
             self.violation('wrong-message',
                            '%s received %s, the next message after its subscription is %s '
@@ -249,6 +253,13 @@ def build_for(case):
     def build(arena):
         channel = Channel()
         wrap = Twin if case.get('twins') else str
+        if case.get('nones'):
+            # every other message is None (a valid payload: it must not end an iteration)
+            def wrap(message, plain=wrap):
+                if len(checker.puts) % 2 == 0:
+                    checker.none_idents.add(message)
+                    return None
+                return plain(message)
         if case.get('reused'):
             earlier_simulation(channel)
         checker = ChannelChecker(arena, channel)
